@@ -18,8 +18,8 @@ from vf.ref import linq
 
 BACKENDS = ("atlas", "cms_aod")
 RULE = (
-    "cells = every function name of the README's Math list (+ builtin abs, pow) x 5 uses (standalone column, inside +*/ arithmetic, "
-    "inside a comparison + conditional, on integer-typed arguments standalone and inside arithmetic), enumerated completely in every run on two back ends; arguments are computed from Hypothesis-drawn "
+    "cells = every function name of the README's Math list (+ builtin abs, pow) x 7 uses (standalone column, inside +*/ arithmetic, inside an inner lambda under Sum, as the argument of other functions, with a literal in each argument position, "
+    "inside a comparison + conditional, on integer-typed arguments standalone and inside arithmetic) + each name alone in a query of its own (include check), enumerated completely in every run on two back ends; arguments are computed from Hypothesis-drawn "
     "event data inside each function's domain. non-trivial = a (cell, drawn values) pair with a row on which the namesake differs from every "
     "other listed function of the same arity (so a table row mapped to a sibling is visible); distinct by (cell, values)."
 )
@@ -75,6 +75,19 @@ def build_cells(backend):
         if name != "nan":
             cells.append((f"{name}:arith", f"(({call} * 2 + 1) / 4 - {call})", name))
             cells.append((f"{name}:cond", f"({call} if ({call} > 0.5) else (0 - 1))", name))
+        if name != "nan":
+            vecm = "weights" if backend == "atlas" else "chi2s"
+            # inside an inner lambda under an aggregate; and as the argument of other functions
+            cells.append((f"{name}:inlambda", f"j.{vecm}().Select(lambda w: {call} + w).Sum()", name))
+            cells.append((f"{name}:wrapped", f"(fabs({call}) + sqrt(fabs({call})) - {call})", name))
+        if len(SPEC[name]) >= 2:
+            # a literal in each argument position in turn (the other arguments stay computed)
+            base_args = [a.replace("j.NINT()", int_method(backend)) for a in SPEC[name]]
+            for pos in range(len(base_args)):
+                lit = "3" if (name in ("ldexp", "scalbn", "scalbln") and pos == 1) else ("10.0" if pos == 0 else "1.5")
+                la = list(base_args)
+                la[pos] = lit
+                cells.append((f"{name}:lit{pos}", f"{name}({', '.join(la)})", name))
         if name in INTSPEC:
             icall = f"{name}({', '.join(a.replace('j.NINT()', int_method(backend)) for a in INTSPEC[name])})"
             cells.append((f"{name}:int", icall, name))
@@ -175,9 +188,32 @@ def run_cells(cells, evs, backend):
     return res
 
 
+def include_alone(backend, stats: Stats):
+    """each function, used alone in a query of its own (translated one after the other in one process), pulls in <cmath>"""
+    from vf.xlate import translate
+
+    for cid, text, name in build_cells(backend):
+        if not cid.endswith(":plain"):
+            continue
+        q = make_query([(cid, text, name)], backend)
+        try:
+            pkg = translate(q, backend)
+        except Exception as e:
+            stats.violation("fn-" + name, f"{cid}: rejected when used alone: {type(e).__name__}: {str(e)[:120]}", {"backend": backend, "cell": cid, "expr": text, "name": name, "events": []})
+            continue
+        src = pkg.files.get("query.cxx") or pkg.files.get("Analyzer.cc")
+        ok = any(h in src for h in ('#include "cmath"', "#include <cmath>", '#include "math.h"', "#include <math.h>"))
+        stats.case(jdump([backend, "include-alone", name]), True, ["use=include-alone", "backend=" + backend], {"backend": backend, "cell": cid + " alone", "cmath_included": ok})
+        if not ok:
+            stats.violation("include-" + name, f"{name} used alone in a query: the package does not #include cmath", {"backend": backend, "cell": cid, "expr": text, "name": name, "events": [], "include_alone": True})
+
+
 def worker(payload):
     seed, backend, chunks, deadline, n_examples = payload
     stats = Stats()
+    if chunks == "include-alone":
+        include_alone(backend, stats)
+        return stats
     sch = standard_schema(backend)
     evstrat = events_strategy(sch, [collection(backend)], n_min=2, n_max=3)
     for ci, cells in enumerate(chunks):
@@ -213,6 +249,8 @@ def run(ctx: Ctx):
         for i in range(nsh):
             payloads.append((derive_seed(ctx.seed, "C12", k), be, chunks[i::nsh], ctx.deadline, n_examples))
             k += 1
+    for be in BACKENDS:
+        payloads.append((derive_seed(ctx.seed, "C12inc", be), be, "include-alone", ctx.deadline, 0))
     for st_ in run_shards("vf.props.C12", "worker", payloads):
         ctx.stats.merge(st_)
     ctx.stats.excluded["abs(int)-inside-division (known finding abs-int-division)"] += len(INT_ARITH_EXCLUDED) * len(BACKENDS)
@@ -224,6 +262,10 @@ def run(ctx: Ctx):
 def replay(case):
     evs = [Event.from_json(j) for j in case["events"]]
     out = []
+    if case.get("include_alone") or not evs:
+        st = Stats()
+        include_alone(case["backend"], st)
+        return [{"key": v["key"], "what": v["what"]} for v in st.violations if v["key"].endswith(case["name"])]
     for c, prob, vals in run_cells([(case["cell"], case["expr"], case["name"])], evs, case["backend"]):
         if prob:
             out.append({"key": "fn-" + c[2], "what": f"{c[0]}: {prob}"})
